@@ -100,6 +100,7 @@ def run(ck, fb):
     r01y(ck, fb)
     r01z(ck, fb)
     r01aa(ck, fb)
+    r01ac(ck, fb)
     ck.borrow('rules.c09', {'R09l': 'R01ab'}, 'a snapshot record carries the whole history of a key: the full-value path must store all 100 entries a node served before it stopped, not one fewer')
     ck.borrow('rules.c07', {'R07f': 'R01x'}, 'a snapshot must be labelled with the index of the last entry it contains: last_applied_log advances when the apply is accepted, otherwise the replay after a restart applies an entry twice')
     ck.borrow('rules.c19', {'R19h': 'R01q'}, 'a request served while the restore is still running is applied on top of a state that is about to be overwritten by it')
@@ -1095,3 +1096,22 @@ def r01aa(ck, fb, R='R01aa'):
                'load_log skips the replay on an edge on which last_applied_log %s snapshot_next_index can hold: the entry at snapshot_next_index '
                '(acknowledged, applied, not in the snapshot) is not restored after a restart and never applied again' % (sorted(bad[0][1]) if bad else ''),
                '%d comparisons of the two indexes, none skips an entry' % n)
+
+
+def r01ac(ck, fb, R='R01ac'):
+    ck.rule(R, 'the namespace list comes back in the order it was served: records are loaded in the order they were written, and loading a config '
+               'appends its tenant to the namespace list (as a weak namespace) when it is not there yet - so in RaftDataHandler::build_snapshot the '
+               'namespace actor is asked for its records before the config actor (each awaited). With the configs first, a node filled from a '
+               'snapshot lists the namespaces in the order of the config cache: leader [ns-a, ns-b], late joiner and restarted node [ns-b, ns-a]')
+    b = ck.main('rnacos::raft::filestore::raftdata::RaftDataHandler::build_snapshot', R)
+    if not b:
+        return
+    ns = [s0 for (s0, m0, v0, a0) in util.sends(b, None, 'BuildSnapshot') if s0.gargs and s0.gargs[0].endswith('NamespaceActor')]
+    cf = [s0 for (s0, m0, v0, a0) in util.sends(b, None, 'BuildSnapshot') if s0.gargs and s0.gargs[0].endswith('ConfigActor')]
+    if not ck.require(len(ns) >= 1 and len(cf) >= 1, R, 'build_snapshot:anchors', b.where(), 'the namespace / config BuildSnapshot sends were not found'):
+        return
+    ok = all(cfg.dominates_blocks(b, {x.bb for x in ns}, c.bb) for c in cf) and all(util.awaited(b, x) for x in ns)
+    ck.require(ok, R, 'build_snapshot:namespaces-before-configs', cf[0].where(),
+               'the config actor writes its snapshot records before the namespace actor has written (and been awaited for) its own: a node that loads the '
+               'snapshot creates the namespaces of the configs first, as weak namespaces, and serves the namespace list in another order than the node that built it',
+               'namespace records first')
